@@ -135,6 +135,14 @@ class _Boom(BaseException):
   pass
 
 
+def _main_critical(lock, log):
+  """(a focus target: every line here is a scheduling point, including the LINE event that leaves the with-block)"""
+  with lock:
+    log.append('main-1')
+    log.append('main-2')
+  log.append('main-3')
+
+
 def _signal_scenario(handler_raises, main_holds_lock=False):
   """main starts a worker, then join()s it; one SIGINT may arrive anywhere.  The handler takes a lock the worker also
   uses (so it has scheduling points of its own) -- unless main itself holds that lock -- and optionally raises."""
@@ -166,9 +174,7 @@ def _signal_scenario(handler_raises, main_holds_lock=False):
     done_when_joined_again = None
     try:
       if main_holds_lock:
-        with lock:
-          runtime.yield_point('main-holds-lock')
-          log.append('main')
+        _main_critical(lock, log)
       t.start()
       t.join()
     except _Boom:
@@ -194,7 +200,7 @@ def _signal_scenario(handler_raises, main_holds_lock=False):
 def _sig_execute(handler_raises, main_holds_lock=False):
   def execute(choices):
     sched, value = explore.run_under_scheduler(_signal_scenario(handler_raises, main_holds_lock), choices,
-                                               focus_files=('test_engine.py',))
+                                               focus_targets=[_main_critical], focus_files=('test_engine.py',))
     res = {'value': value, 'outcome_key': repr(value)[:300] if sched.failure is None else 'FAILURE %r' % (sched.failure,)}
     return explore.Exec(list(choices), sched.points, res, sched.failure, sched.steps, len(sched.trace), sched.state_hashes)
   return execute
